@@ -439,6 +439,31 @@ pub fn generate_c04(thorough: bool, seed: u64, em: &mut Emitter) {
                 }
             }
         }
+        // (a3) HMAC: keys that are "the same secret" in another spelling are other keys: the base64url / base64 / hex
+        // text of the secret, the secret with a trailing newline, without its last byte, reversed, upper-cased
+        if alg.starts_with("HS") {
+            use base64::Engine;
+            let k = SECRET;
+            let mut related: Vec<Vec<u8>> = vec![
+                indep::b64url_encode(k).into_bytes(),
+                base64::engine::general_purpose::STANDARD.encode(k).into_bytes(),
+                k.iter().map(|b| format!("{:02x}", b)).collect::<String>().into_bytes(),
+                [k, b"\n"].concat(),
+                k[..k.len() - 1].to_vec(),
+                k.iter().rev().copied().collect(),
+                k.to_ascii_uppercase(),
+                [b" ", k].concat(),
+            ];
+            related.retain(|x| x.as_slice() != k);
+            for rk in related {
+                if let Ok(text) = String::from_utf8(rk) {
+                    let key = json!({"kind": "secret", "value": text});
+                    let mut c = decode_case(&token, &no_exp(alg), &key, alg, false, "reject", "reject", true);
+                    c["tag"] = json!("related_hmac_key");
+                    em.case("decode", c);
+                }
+            }
+        }
         // (b) every key with every configured algorithm
         for kalg in keys::ALL_ALGS {
             for palg in keys::ALL_ALGS {
@@ -499,10 +524,17 @@ fn header_value(r: &mut Rng, field: &str, class: usize) -> Value {
         _ => format!("{}{}", field, "x".repeat(200 + r.below(50))),
     };
     if field == "x5c" || field == "crit" {
-        match r.below(3) {
+        // lists are sequences: order and repetitions are part of the value (a certificate chain may name the
+        // same certificate twice, next to each other or not)
+        let t = format!("{}-2", field);
+        match r.below(7) {
             0 => json!([]),
             1 => json!([s]),
-            _ => json!([s, format!("{}-2", field), "third"]),
+            2 => json!([s, s]),
+            3 => json!([s, t, t, "third"]),
+            4 => json!([s, t, s]),
+            5 => json!([t, s]),
+            _ => json!([s, t, "third"]),
         }
     } else {
         json!(s)
